@@ -28,3 +28,25 @@ func VP_C02_rawmsg() {
 	}
 	vp.Cover("end")
 }
+
+// generated documents: RawMessage re-encodes them byte for byte.
+func VP_C02_rawmsg_docs() {
+	tag := byte(1 + vp.Choice(12))
+	budget := 3 + vp.Tier()
+	b := vp.GenNBT(nil, tag, 0, &budget)
+	b = append(b, vp.Bytes(1)...)
+	vp.SizeBound(len(b) + 1)
+	st, end := vp.RefNBT(b, 0, tag, 0)
+	vp.Assert(st == vp.NBTComplete && end == len(b)-1, "generator produces well-formed documents")
+	var m RawMessage
+	r := &vpByteReader{b: b}
+	vp.Assert(m.UnmarshalNBT(tag, r) == nil, "a well-formed value is accepted")
+	vp.Assert(r.pos == end, "exactly the value's bytes are consumed")
+	var w vpBuf
+	vp.Assert(m.MarshalNBT(&w) == nil, "MarshalNBT err==nil")
+	vp.Assert(len(w.b) == end, "re-encoding has the same length")
+	for i := 0; i < end && i < len(w.b); i++ {
+		vp.Assert(w.b[i] == b[i], "re-encoding is byte-exact")
+	}
+	vp.Cover("end")
+}
